@@ -5,6 +5,9 @@
 (* for the XMCD:  layout class x flags x XMCD KIND (every kind of HabLayout!XmcdKinds + "raw") x     *)
 (* source of the block (golden block of NXP / built by SPSDK's XMCD class from its template / header  *)
 (* of the kind + arbitrary configuration bytes) - there the application size is a secondary dimension. *)
+(* The SHAPE OF THE SUPPLIED DCD is a primary dimension too: every shape (header only / one command /  *)
+(* several Write Data / several Check Data / NOP + Unlock / every kind) x header version (0x40 / 0x41 /  *)
+(* another 4.x) x flags, in every tier.                                                                *)
 (* Secondary dimensions (key tree, number of SRKs, source index, key-path variant, MAC / DEK length, *)
 (* nonce / DEK given or generated, extra commands, CSF version, IMGK slot, entry point given,        *)
 (* family + boot device instead of explicit offsets, start address) are spread over the primary     *)
@@ -28,15 +31,26 @@ ResSeq == SetToSeq(Residues)
 MaxPage == IF Full THEN 3 ELSE 1
 
 \* without XMCD: the full product
+\* (a DCD of these cases: one Write Data command, sometimes a Check Data command, NOPs - shape "gen", length and version by index)
 PrimB == { p \in [lay : 1..4, res : Residues, pages : Pages, flags : Flags, cfg : {"none", "dcd"}, xk : {"none"}, xv : {"none"},
-                  sub : {0}, rep : 0..(Reps - 1)] : p.pages * 4096 + p.res >= 64 }
+                  ds : {"gen", "none"}, dv : {-1}, sub : {0}, rep : 0..(Reps - 1)] :
+             p.pages * 4096 + p.res >= 64 /\ (p.ds = "none") = (p.cfg = "none") }
+\* SHAPE OF THE SUPPLIED DCD: every shape x every header version x every flag (layout and application size by index).
+\*   hdr  - the smallest legal DCD: a header without any command (D2 00 04 4x)       one - one Write Data command with one pair
+\*   wr   - several Write Data commands (each operation; 1, 2, 4-byte accesses)        chk - several Check Data commands (with / without count)
+\*   misc - NOP and Unlock commands                                                   mix - commands of every kind
+\* version: 0 = 0x40 (HAB 4.0 parts: i.MX6 class), 1 = 0x41 (RT10xx / RT11xx tool chains), 2 = another minor version of HAB 4 (0x42 .. 0x45)
+DcdShapeNames == {"hdr", "one", "wr", "chk", "misc", "mix"}
+DcdVerSel == 0..2
+PrimD == [lay : {0}, res : {-1}, pages : {-1}, flags : Flags, cfg : {"dcd"}, xk : {"none"}, xv : {"none"},
+          ds : DcdShapeNames, dv : DcdVerSel, sub : (IF Full THEN 0..1 ELSE {0}), rep : 0..(Reps - 1)]
 \* with XMCD (layouts whose application offset leaves room: the RT116x / RT117x boot devices): every kind x every flag x every source
 XLays == {i \in 1..4 : Lays[i].ils - Lays[i].ivtOff >= 3072}
 PrimX == [lay : XLays, res : {-1}, pages : {-1}, flags : Flags, cfg : {"xmcd"}, xk : XmcdKindNames, xv : {"golden", "tmpl", "rand"},
-          sub : (IF Full THEN 0..2 ELSE {0}), rep : 0..(Reps - 1)]
+          ds : {"none"}, dv : {-1}, sub : (IF Full THEN 0..2 ELSE {0}), rep : 0..(Reps - 1)]
 PrimR == [lay : XLays, res : {-1}, pages : {-1}, flags : Flags, cfg : {"xmcd"}, xk : {"raw"}, xv : {"rand"},
-          sub : (IF Full THEN 0..5 ELSE 0..1), rep : 0..(Reps - 1)]
-Prim == PrimB \cup PrimX \cup PrimR
+          ds : {"none"}, dv : {-1}, sub : (IF Full THEN 0..5 ELSE 0..1), rep : 0..(Reps - 1)]
+Prim == PrimB \cup PrimX \cup PrimR \cup PrimD
 PrimSeq == SetToSeq(Prim)
 
 Trees == << "rsa2048", "p256", "rsa4096", "p384", "fa_rsa2048", "rsa3072", "p521", "fa_p256" >>
@@ -49,19 +63,32 @@ IsFast(tree) == tree \in {"fa_rsa2048", "fa_p256"}
 LayPos(l) == Cardinality({j \in XLays : j < l})
 FlagIdx(f) == CASE f = "plain" -> 0 [] f = "auth" -> 1 [] OTHER -> 2
 RawIdx(p) == p.sub * Cardinality(XLays) + LayPos(p.lay) + FlagIdx(p.flags) + Seed + p.rep
+\* the commands of a DCD shape (y varies the numbers of pairs / the presence of a count / the order)
+DcdCmdsOf(shape, y) ==
+  CASE shape = "hdr" -> << >>
+    [] shape = "one" -> << DcdW(1) >>
+    [] shape = "wr" -> << DcdW(1 + (y % 3)), DcdW(1), DcdW(1 + ((y \div 3) % 2)), DcdW(2) >>
+    [] shape = "chk" -> << DcdC(y % 2), DcdC(1 - (y % 2)), DcdC((y \div 2) % 2), DcdC(1) >>
+    [] shape = "misc" -> IF y % 2 = 0 THEN << DcdN, DcdU(1), DcdN, DcdN, DcdU(1) >> ELSE << DcdU(1), DcdN, DcdU(1) >>
+    [] shape = "mix" -> IF y % 2 = 0 THEN << DcdW(2), DcdN, DcdC(1), DcdU(1), DcdW(1), DcdC(0) >>
+                                     ELSE << DcdC(0), DcdU(1), DcdW(1), DcdN, DcdC(1), DcdW(3) >>
+    [] OTHER -> << >>                      \* "gen": the harness builds a DCD of exactly cfgLen bytes
+DcdVerOf(sel, y) == CASE sel = 0 -> 64 [] sel = 1 -> 65 [] OTHER -> 66 + (y % 4)
 Case(k) ==
   LET p == PrimSeq[k]
       x == k + Seed + 7919 * p.rep
-      lay == Lays[p.lay]
+      lay == IF p.lay = 0 THEN Lays[((x + p.sub) % 4) + 1] ELSE Lays[p.lay]
+      dcmds == DcdCmdsOf(p.ds, x + p.sub)
       tree == Pick(Trees, x)
       nSrk == ((x \div 8) % 4) + 1
       cfgLen == CASE p.cfg = "none" -> 0
-                  [] p.cfg = "dcd" -> Pick(CfgLens.dcd, x \div 3)
+                  [] p.cfg = "dcd" /\ p.ds = "gen" -> Pick(CfgLens.dcd, x \div 3)
+                  [] p.cfg = "dcd" -> DcdLen(dcmds)
                   [] p.xk \in XmcdKindNames -> XmcdKinds[p.xk].size
                   [] OTHER -> Pick(CfgLens.xmcd, RawIdx(p))
       \* application size of the XMCD cases: residue and pages by index
-      res == IF p.cfg = "xmcd" THEN Pick(ResSeq, x \div 3) ELSE p.res
-      pages == IF p.cfg # "xmcd" THEN p.pages ELSE IF res < 64 THEN 1 + ((x \div 9) % MaxPage) ELSE (x \div 9) % (MaxPage + 1)
+      res == IF p.res = -1 THEN Pick(ResSeq, x \div 3) ELSE p.res
+      pages == IF p.res # -1 THEN p.pages ELSE IF res < 64 THEN 1 + ((x \div 9) % MaxPage) ELSE (x \div 9) % (MaxPage + 1)
   IN [id |-> k, lay |-> lay.n, ivtOff |-> lay.ivtOff, ils |-> lay.ils, appLen |-> pages * 4096 + res,
       flags |-> p.flags, cfg |-> p.cfg, cfgLen |-> cfgLen, rep |-> p.rep, xmcdKind |-> p.xk, xmcdVar |-> p.xv, sub |-> p.sub,
       tree |-> tree, fast |-> IsFast(tree), nSrk |-> nSrk, src |-> (x \div 5) % nSrk, keyvar |-> Pick(KeyVars, x \div 7),
@@ -69,6 +96,9 @@ Case(k) ==
       nonceGiven |-> (x \div 13) % 2 = 0, reuseDek |-> (x \div 17) % 2 = 0, extra |-> (x \div 19) % 4,
       ver |-> Pick(Vers, x \div 23), tgt |-> IF IsFast(tree) THEN 0 ELSE 2 + ((x \div 29) % 4),
       entryGiven |-> (x \div 31) % 3, byDb |-> (x \div 37) % 2 = 0 /\ lay.n # "ram", startSel |-> (x \div 41) % 6,
+      dcdShape |-> p.ds, dcdCmds |-> dcmds,
+      dcdVer |-> IF p.cfg # "dcd" THEN 0 ELSE IF p.ds = "gen" THEN Pick(<<65, 64, 65, 67>>, x \div 53) ELSE DcdVerOf(p.dv, x),
+      dcdVerSel |-> p.dv,
       xmcdSel |-> (x \div 43) % 6, xmcdInst |-> (x \div 43) % 2, tsGiven |-> (x \div 47) % 2 = 0]
 
 Params(c) == [ivtOff |-> c.ivtOff, ils |-> c.ils, appLen |-> c.appLen, flags |-> c.flags, cfgKind |-> c.cfg, cfgLen |-> c.cfgLen,
@@ -77,6 +107,8 @@ Params(c) == [ivtOff |-> c.ivtOff, ils |-> c.ils, appLen |-> c.appLen, flags |->
 VARIABLE k
 Init == k \in 1..Len(PrimSeq)
 Next == UNCHANGED k
-DocumentedLayoutOK == LayoutOK(Params(Case(k)), Layout(Params(Case(k))), 4096)
+DocumentedLayoutOK == /\ LayoutOK(Params(Case(k)), Layout(Params(Case(k))), 4096)
+                      /\ (Case(k).dcdShape \notin {"gen", "none"} =>
+                            DcdWellFormed(210, Case(k).cfgLen, Case(k).dcdVer, Case(k).dcdCmds))
 Emit == PrintT(ToJson(Case(k)))
 =============================================================================
